@@ -204,18 +204,30 @@ func (e *Engine) sockRead(st *State, recv Value, buf SliceV, udpFrom bool) []exi
 		nn.pos++
 		e.clockMax(yes, arr)
 		blen, ok := e.resolveLen(yes, buf.Len)
-		if !ok {
-			panic(unsupported("socket read into a buffer of symbolic length"))
-		}
 		dcap := data.Cap
-		n := c.Ite(c.BVUlt(data.Len, e.bv64(int64(blen))), data.Len, e.bv64(int64(blen)))
 		src := e.getPath(yes, e.obj(yes, data.Obj), data.Path).(ArrayV)
-		// the first n bytes of the buffer are the datagram; the bytes behind them (which the returned count
-		// hides) are left arbitrary: they receive the script buffer's unconstrained bytes instead of keeping
-		// their old content - an over-approximation that keeps every byte a plain variable
-		for j := 0; j < blen && j < dcap; j++ {
-			p := PtrV{Obj: buf.Obj, Path: appendPath(buf.Path, PathElem{I: buf.Off + j})}
-			e.store(yes, p, src.E[data.Off+j].(*Term))
+		var n *Term
+		if ok {
+			n = c.Ite(c.BVUlt(data.Len, e.bv64(int64(blen))), data.Len, e.bv64(int64(blen)))
+			// the first n bytes of the buffer are the datagram; the bytes behind them (which the returned count
+			// hides) are left arbitrary: they receive the script buffer's unconstrained bytes instead of keeping
+			// their old content - an over-approximation that keeps every byte a plain variable
+			for j := 0; j < blen && j < dcap; j++ {
+				p := PtrV{Obj: buf.Obj, Path: appendPath(buf.Path, PathElem{I: buf.Off + j})}
+				e.store(yes, p, src.E[data.Off+j].(*Term))
+			}
+		} else {
+			// a receive buffer of symbolic length (a buffer re-sliced to an earlier datagram's length): the
+			// datagram is truncated to it; bytes behind the buffer's length keep their content
+			n = c.Ite(c.BVUlt(data.Len, buf.Len), data.Len, buf.Len)
+			for j := 0; j < buf.Cap && j < dcap; j++ {
+				p := PtrV{Obj: buf.Obj, Path: appendPath(buf.Path, PathElem{I: buf.Off + j})}
+				old, _ := e.load(yes, p).(*Term)
+				if old == nil {
+					panic(unsupported("socket read into a buffer of symbolic length over non-byte storage"))
+				}
+				e.store(yes, p, c.Ite(c.BVUlt(e.bv64(int64(j)), buf.Len), src.E[data.Off+j].(*Term), old))
+			}
 		}
 		if udpFrom {
 			// the sender's address: some IPv4 address and port
